@@ -1,10 +1,15 @@
 #!/bin/bash
-# Offline build of the whole framework: Rust harness (against /repo's working tree, hooks on),
-# Lean library (all theorems) and the native model driver.
-set -e
+# Offline build of the whole framework: Rust harness binaries (against /repo's working tree, hooks
+# on), and for every claimed property its Lean theorem module and native model driver.
 cd "$(dirname "$0")"
 export CARGO_NET_OFFLINE=true
 cp /repo/Cargo.lock harness/Cargo.lock
-(cd harness && cargo build --offline)
-(cd lean && lake build SamVerif samverif-driver)
-echo "setup ok"
+props=$(python3 -c "import json;print(' '.join(c['property_id'] for c in json.load(open('MANIFEST.json'))['checks']))")
+rc=0
+for p in $props; do
+  lp=$(echo $p | tr 'A-Z' 'a-z')
+  (cd harness && cargo build --offline --bin $lp) || rc=1
+  (cd lean && lake build $(grep -ho 'SamVerif\.Props\.[A-Za-z0-9]*' SamVerif/Audit/$p.lean | sort -u) drv-$lp) || rc=1
+done
+[ $rc = 0 ] && echo "setup ok" || echo "setup finished with errors"
+exit $rc
